@@ -17,7 +17,7 @@ func Verif_C18_mint_event() {
 		s.assumeSteps(i, T, 2)
 	}
 	k := verifMinterModuleKeeper()
-	g := types.GenesisState{Params: s.params, MinterState: types.MinterState{SequenceId: 1, AmountMinted: sdk.ZeroInt(), RemainderToMint: sdk.ZeroDec(),
+	g := types.GenesisState{Params: s.params, MinterState: types.MinterState{SequenceId: verifSeq(0), AmountMinted: sdk.ZeroInt(), RemainderToMint: sdk.ZeroDec(),
 		RemainderFromPreviousMinter: sdk.ZeroDec(), LastMintBlockTime: s.params.StartTime}}
 	ctx := verifCtx(s.params.StartTime)
 	InitGenesis(ctx, k, W.auth, g)
